@@ -571,6 +571,8 @@ class NB:
         n, h, w, c = X["shape"]
         f = d(st.sampled_from([2, 2, 4, 1])) if factor is None else factor
         half = d(st.booleans())
+        if X["dtype"] == "int16" and factor is None and d(st.booleans()):
+            f, half = 2, True  # 16-bit half-pixel x2: edges replicated through side-by-side tiles whose offsets count bytes, not elements
         align = (not half) and d(st.booleans())
         oh, ow = (h * f, w * f) if not align else ((h - 1) * f + 1, (w - 1) * f + 1)
         o = self.out(kind, [n, oh, ow, c], X["dtype"], (X["scale"], X["zp"]))
